@@ -572,7 +572,7 @@ def uniq(r, pool, n, used, key=lambda s: s.lower()):
     return out
 
 
-def rand_elems(r, dia, size, allow_frames, depth):
+def rand_elems(r, dia, size, allow_frames, depth, nest=0):
     used, fused, out = set(), set(), []
     names_pool = NAMES2 if dia == 2 else NAMES
     for _ in range(r.randint(0, size)):
@@ -589,14 +589,21 @@ def rand_elems(r, dia, size, allow_frames, depth):
         elif allow_frames:
             c = uniq(r, CODES2 if dia == 2 else CODES, 1, fused)
             if c:
-                out.append(("frame", c[0], rand_elems(r, dia, max(1, size - 2), False, depth)))
+                # `nest` = how many further levels of save frames may follow inside this one
+                out.append(("frame", c[0], rand_elems(r, dia, max(1, size - 2), nest > 0, depth, nest - 1)))
     return out
 
 
-def rand_doc(r, dia, size=5, depth=2, avoid=()):
+def rand_doc(r, dia, size=5, depth=2, avoid=(), nest=0):
     used = set(a.lower() for a in avoid)
     codes = uniq(r, CODES2 if dia == 2 else CODES, r.randint(1, 4) if size > 1 else 1, used)
-    return [(c, rand_elems(r, dia, size, True, depth)) for c in codes]
+    return [(c, rand_elems(r, dia, size, True, depth, nest)) for c in codes]
+
+
+def frame_depth(doc):
+    def de(elems):
+        return max([1 + de(e[2]) for e in elems if e[0] == "frame"] + [0])
+    return max([de(b[1]) for b in doc] + [0])
 
 
 def count_items(doc):
@@ -802,7 +809,8 @@ def gen_docs(r, n, dias=(2, 1)):
         dia = 2 if r.random() < 0.7 else 1
         if dia not in dias:
             dia = dias[0]
-        doc = rand_doc(r, dia, size=r.choice([1, 2, 4, 6]), depth=r.choice([0, 1, 2, 3]))
+        # every fourth document may nest save frames (up to three levels); those are parsed with max_frame_depth < 0
+        doc = rand_doc(r, dia, size=r.choice([1, 2, 4, 6]), depth=r.choice([0, 1, 2, 3]), nest=r.choice([0, 0, 0, 2]))
         yield dia, doc
 
 
@@ -820,7 +828,8 @@ def generate(seed, tier):
         if target == "p":
             content = merge_content(PRE_CIF, content)
         note = ["X"] + dump_cif(content).split(" ")[1:]
-        yield make_request("parse", text, dia=dia, mfd=1 if r.random() < 0.8 else -1, target=target, note=note)
+        mfd = -1 if frame_depth(doc) > 1 else (1 if r.random() < 0.8 else -1)
+        yield make_request("parse", text, dia=dia, mfd=mfd, target=target, note=note)
     # boundary: lines of 2046..2048 characters in every kind of token (admissible: <= 2048)
     for dia in (2, 1):
         for n_ in (2046, 2047, 2048):
